@@ -1,6 +1,7 @@
 package engine
 
 import (
+	"fmt"
 	"testing"
 	"time"
 
@@ -29,6 +30,12 @@ func Minimise(t *testing.T, bind *Binding, c *Case, job *Job, same func([]model.
 	}
 	deadline := time.Now().Add(time.Duration(capS * float64(time.Second)))
 	best := cloneCase(c)
+	if v := same([]model.Violation{{Property: c.Property, Oracle: "step-budget-exceeded"}}); v != nil {
+		// non-termination findings: every attempt costs a full budget; only try the cheap
+		// reductions (fewer runs, canonical picks)
+		capS = 6
+		deadline = time.Now().Add(time.Duration(capS * float64(time.Second)))
+	}
 	try := func(cand *Case) bool {
 		if time.Now().After(deadline) {
 			return false
@@ -138,11 +145,13 @@ func Minimise(t *testing.T, bind *Binding, c *Case, job *Job, same func([]model.
 			func(x *sdl.Instance) { x.Qual = "" },
 			func(x *sdl.Instance) { x.Kind = "" },
 			func(x *sdl.Instance) { x.Order = 0 },
+			func(x *sdl.Instance) { x.InitLookups = nil },
 		} {
 			cand := cloneCase(best)
-			before := *cand.Prog.Instances[i]
-			f(cand.Prog.Instances[i])
-			if *cand.Prog.Instances[i] != before {
+			x := cand.Prog.Instances[i]
+			before := fmt.Sprint(*x)
+			f(x)
+			if fmt.Sprint(*x) != before {
 				try(cand)
 			}
 		}
